@@ -271,6 +271,7 @@ class QuickSampler:
             self.photon_counting,
             self.__circuit.n_modes,
             self.__circuit.heralds,
+            settings.sampler_probability_threshold,
         ]
 
     def _calculate_probabiltiies(self, outputs: list) -> dict:
